@@ -133,7 +133,7 @@ class Environment:
             )
 
     def remove(self, name):
-        del self.map[name]
+        self.map.pop(name, None)
 
     def newEnv(self):
         return Environment(self)
